@@ -185,8 +185,26 @@ class Driver:
         else:
             head = [C_NEXT, O_ACT, K_NONE, 0, 0, 0, 0, 3, 3]
         self._log(head)
-        self.ev[-1].append(tyword(args))
+        # base-8 digits 0..4: argument type tags; digit 5: does eval(repr(action)) give back an equal action
+        # (same class, equal args)?  1 yes, 0 no, 4 raised
+        self.ev[-1].append(tyword(args) + 8 ** 5 * self._repr_roundtrip(a))
         return "act"
+
+    _ns = None
+
+    def _repr_roundtrip(self, a):
+        if Driver._ns is None:
+            import numpy
+            import checkpoint_schedules as pkg
+            ns = {"sys": sys, "numpy": numpy, "np": numpy, "StorageType": pkg.StorageType}
+            for name in ("Forward", "Reverse", "Copy", "Move", "EndForward", "EndReverse"):
+                ns[name] = getattr(pkg, name)
+            Driver._ns = ns
+        try:
+            x = eval(repr(a), dict(Driver._ns))
+            return 1 if (type(x) is type(a) and tuple(x.args) == tuple(a.args)) else 0
+        except Exception:
+            return 4
 
     def do_finalize(self, k):
         with contextlib.redirect_stdout(self.out):
